@@ -1122,6 +1122,35 @@ def rule_k(ctx: Context, R: Reporter):
                 msg=f"{writers[0][0].short if writers else ''}: `{unparse(writers[0][1])[:50] if writers else ''}` stores state on the wrapper during evaluation: results of one call can "
                     f"depend on (or alias) another call's data, and differ between serial and pooled evaluation", key="wrapper-stateless")
         R.floor("C07.k", "returns of the wrapper's __call__", n_ret, 1)
+        # what is bound is what was given: the constructor stores the callable and the extra arguments unchanged (an
+        # absent list / dict replaced by an empty one is the only conversion)
+        init = w.methods.get("__init__")
+        if init is not None:
+            ips = [p for p in init.params if p != "self"]
+            for x in walk_no_nested(init.node):
+                if not (isinstance(x, ast.Assign) and len(x.targets) == 1 and isinstance(x.targets[0], ast.Attribute) and isinstance(x.targets[0].value, ast.Name) and x.targets[0].value.id == "self"):
+                    continue
+                v = x.value
+
+                def as_given(e) -> bool:
+                    if isinstance(e, ast.Name) and e.id in ips:
+                        return True
+                    if isinstance(e, ast.IfExp) and is_none_test(e.test) is not None and isinstance(is_none_test(e.test)[0], ast.Name) and is_none_test(e.test)[0].id in ips:
+                        none_branch, other = (e.body, e.orelse) if is_none_test(e.test)[1] else (e.orelse, e.body)
+                        empty = (isinstance(none_branch, (ast.List, ast.Dict, ast.Tuple)) and not (none_branch.keys if isinstance(none_branch, ast.Dict) else none_branch.elts)) \
+                            or (isinstance(none_branch, ast.Call) and dotted(none_branch.func) in ("list", "dict", "tuple") and not none_branch.args)
+                        return empty and as_given(other)
+                    if isinstance(e, ast.BoolOp) and isinstance(e.op, ast.Or) and len(e.values) == 2 and as_given(e.values[0]) and isinstance(e.values[1], (ast.List, ast.Dict, ast.Tuple)):
+                        return True
+                    return False
+
+                uses_param = any(isinstance(y, ast.Name) and y.id in ips for y in ast.walk(v)) or any(
+                    isinstance(y, ast.Attribute) and isinstance(y.value, ast.Name) and y.value.id == "self" and y.attr in ("f", "args", "kwargs") for y in ast.walk(v))
+                if not uses_param:
+                    continue
+                R.check("C07.k", f"{w.name} binds the callable and its extra arguments as given", as_given(v), init, x,
+                        msg=f"{init.short}: `{unparse(x)[:70]}` stores a filtered / converted version of what the user gave: the function evaluated at every stored point is no longer the "
+                            f"user's callable bound with *all* of its extra arguments (a dropped keyword silently changes every log-likelihood)", key=f"wrapper-binding:{x.targets[0].attr}")
 
 
 def rule_stateless(ctx: Context, R: Reporter):
@@ -1178,6 +1207,7 @@ def variants():
         Variant("f-writeback-omits-blobs", "bad", edit(mu, "Mutator.run", _merge_writebacks(("x", "u", "logl"))), ["C07.f"], quick=True),
         Variant("f-writeback-omits-x", "bad", edit(mu, "Mutator.run", _merge_writebacks(("u", "logl", "blobs"))), ["C07.f"]),
         Variant("g-nan-to-num-kernel", "bad", insert_before(mc, "BaseMCMCRunner._evaluate_likelihood", "self.n_calls += self.n_walkers", "logl_prime = np.nan_to_num(logl_prime)"), ["C07.g"], quick=True),
+        Variant("k-wrapper-filters-kwargs", "bad", insert_after("tempest/tools.py", "FunctionWrapper.__init__", "self.kwargs = {} if kwargs is None else kwargs", "self.kwargs = {k: v for k, v in self.kwargs.items() if not k.startswith('_')}"), ["C07.k"], quick=True),
         Variant("m-blob-rows-star-unpacked", "bad", replace_stmt(core, "SamplerCore._log_like", "blob = [item[1:] for item in results]", "blob = []\nfor (value0, *extra) in results:\n    blob.append(extra)"), ["C07.m"], quick=True),
         Variant("m-blob-columns-reshaped", "bad", replace_stmt(core, "SamplerCore._log_like", "blob = np.array(blob, dtype=dt)", "logl_col, *blob_cols = zip(*results)\nblob = np.array(blob_cols, dtype=dt).reshape(len(results), -1)"), ["C07.m"]),
         Variant("m-benign-blob-rows-as-tuples", "benign", replace_stmt(core, "SamplerCore._log_like", "blob = [item[1:] for item in results]", "blob = [tuple(item[1:]) for item in results]")),
